@@ -17,7 +17,8 @@ class ToolFailure(Exception):
 
 
 def workdir(prop):
-    d = os.path.join(VERIF, '_work', prop)
+    tag = os.environ.get('VERIF_WORKTAG')      # lets two runs of the same property coexist (development convenience)
+    d = os.path.join(VERIF, '_work', prop + ('.' + tag if tag else ''))
     shutil.rmtree(d, ignore_errors=True)
     os.makedirs(d)
     return d
